@@ -34,7 +34,8 @@ DECIDED = ["e intern-table lookups cover every interned field", "a logical time 
            "c2 no process-wide counter reaches an output (known finding F-C07-1)", "d shared caches use their lock; no registry mutation while running",
            "e no hash-order decisions (shared)",
            'j wiring-time store and seed store selected by the same condition (kind == TopLevel && live_seeded)', 'h also: injected scheduler supports wall-clock alarms iff real-time (= C18.f)',
-           'k lockset of TypeRecordRegistry', 'l GraphBuilder mutators discard the cached types']
+           'k lockset of TypeRecordRegistry', 'l GraphBuilder mutators discard the cached types',
+           'm copy_from replaces the selected state unconditionally']
 NOT_DECIDED = ["byte-for-byte trace equality", "general data-race freedom", "interning-order effects on printed pointers"]
 
 # (file basename, enclosing function, variable) -> class / reason
